@@ -408,6 +408,7 @@ pub fn def() -> PropertyDef {
         SubCheck::prop("c14.claims-roundtrip", 2, (20000, 400000), |_t| claims_strategy(), roundtrip_case),
         SubCheck::prop("c14.claims-text", 2, (20000, 400000), |_t| text_strategy(), text_case),
         SubCheck {
+            isolate: false,
             name: "c14.json-wrapper".into(),
             weight: 1,
             run: Box::new(|acc: &mut Acc| {
